@@ -448,4 +448,194 @@ theorem redirect_eq {σ : Store} {nr old new} (ho : UnboundRoot σ old) (hn : Un
   · rw [normF_tvar]; simp [Store.redirect, upd, ho.1]
   · rw [normF_tvar]; simp [Store.redirect, upd, hn.1, Ne.symm hne]
 
+
+/-! ### agreement of two normal forms
+
+`unify` lets an array type of the wildcard length (`tast::ARRAY_WILDCARD_LEN`, the length the
+signatures of `array_get` / `array_set` are written with) stand for an array of any length, and does
+NOT bind or rewrite anything when it does so.  So after a successful `unify l r` the two normal forms
+are not always identical: they are identical up to array lengths one of which is the wildcard.
+`agree` is that relation (it is reflexive and symmetric, not transitive); on types without the
+wildcard length it is equality (`agree_eq_of_noWild`). -/
+mutual
+def agree : Ty → Ty → Bool
+  | .tvar a, .tvar b => a == b
+  | .unit, .unit => true
+  | .bool, .bool => true
+  | .string, .string => true
+  | .int b s, .int b' s' => b == b' && s == s'
+  | .float b, .float b' => b == b'
+  | .tuple ts, .tuple us => agreeL ts us
+  | .enum n, .enum m => n == m
+  | .struct n, .struct m => n == m
+  | .dyn n, .dyn m => n == m
+  | .param n, .param m => n == m
+  | .app t args, .app u brgs => agree t u && agreeL args brgs
+  | .array n e, .array m e' => (n == m || n == Gen.arrayWildcardLen || m == Gen.arrayWildcardLen) && agree e e'
+  | .vec e, .vec e' => agree e e'
+  | .ref e, .ref e' => agree e e'
+  | .func ps r, .func qs r' => agreeL ps qs && agree r r'
+  | _, _ => false
+def agreeL : List Ty → List Ty → Bool
+  | [], [] => true
+  | t :: ts, u :: us => agree t u && agreeL ts us
+  | _, _ => false
+end
+
+mutual
+def noWild : Ty → Bool
+  | .tuple ts => noWildL ts
+  | .app t args => noWild t && noWildL args
+  | .array n e => n != Gen.arrayWildcardLen && noWild e
+  | .vec e => noWild e
+  | .ref e => noWild e
+  | .func ps r => noWildL ps && noWild r
+  | _ => true
+def noWildL : List Ty → Bool
+  | [] => true
+  | t :: ts => noWild t && noWildL ts
+end
+
+mutual
+theorem agree_refl : ∀ t, agree t t = true
+  | .tvar _ | .unit | .bool | .string | .int _ _ | .float _ | .enum _ | .struct _ | .dyn _ | .param _ => by simp [agree]
+  | .tuple ts => by simp [agree, agreeL_refl ts]
+  | .app t args => by simp [agree, agree_refl t, agreeL_refl args]
+  | .array n e => by simp [agree, agree_refl e]
+  | .vec e => by simp [agree, agree_refl e]
+  | .ref e => by simp [agree, agree_refl e]
+  | .func ps r => by simp [agree, agreeL_refl ps, agree_refl r]
+theorem agreeL_refl : ∀ ts, agreeL ts ts = true
+  | [] => by simp [agreeL]
+  | t :: ts => by simp [agreeL, agree_refl t, agreeL_refl ts]
+end
+
+
+mutual
+theorem agree_eq_of_noWild : ∀ t u, agree t u = true → noWild t = true → noWild u = true → t = u
+  | .tvar _, u | .unit, u | .bool, u | .string, u | .int _ _, u | .float _, u | .enum _, u | .struct _, u
+  | .dyn _, u | .param _, u => by
+    cases u <;> simp [agree] <;> intros <;> simp_all
+  | .tuple ts, u => by
+    cases u <;> simp [agree, noWild]
+    exact fun h a b => agreeL_eq_of_noWild ts _ h a b
+  | .app t args, u => by
+    cases u <;> simp [agree, noWild]
+    exact fun h1 h2 a1 a2 b1 b2 => ⟨agree_eq_of_noWild t _ h1 a1 b1, agreeL_eq_of_noWild args _ h2 a2 b2⟩
+  | .array n e, u => by
+    cases u <;> simp [agree, noWild]
+    intro h1 h2 a1 a2 b1 b2
+    refine ⟨?_, agree_eq_of_noWild e _ h2 a2 b2⟩
+    rcases h1 with (h | h) | h
+    · exact h
+    · exact absurd h a1
+    · exact absurd h b1
+  | .vec e, u => by
+    cases u <;> simp [agree, noWild]
+    exact fun h a b => agree_eq_of_noWild e _ h a b
+  | .ref e, u => by
+    cases u <;> simp [agree, noWild]
+    exact fun h a b => agree_eq_of_noWild e _ h a b
+  | .func ps r, u => by
+    cases u <;> simp [agree, noWild]
+    exact fun h1 h2 a1 a2 b1 b2 => ⟨agreeL_eq_of_noWild ps _ h1 a1 b1, agree_eq_of_noWild r _ h2 a2 b2⟩
+theorem agreeL_eq_of_noWild : ∀ ts us, agreeL ts us = true → noWildL ts = true → noWildL us = true → ts = us
+  | [], us => by cases us <;> simp [agreeL]
+  | t :: ts, us => by
+    cases us <;> simp [agreeL, noWildL]
+    exact fun h1 h2 a1 a2 b1 b2 => ⟨agree_eq_of_noWild t _ h1 a1 b1, agreeL_eq_of_noWild ts _ h2 a2 b2⟩
+end
+
+theorem normF_tuple_some {g σ us y} (h : normF (g+1) σ (.tuple us) = some y) :
+    ∃ us', mapO (normF g σ) us = some us' ∧ y = .tuple us' := by
+  rw [normF_tuple] at h
+  cases hm : mapO (normF g σ) us <;> simp [hm] at h
+  exact ⟨_, rfl, h.symm⟩
+
+theorem normF_app_some {g σ u args y} (h : normF (g+1) σ (.app u args) = some y) :
+    ∃ u' args', normF g σ u = some u' ∧ mapO (normF g σ) args = some args' ∧ y = .app u' args' := by
+  rw [normF_app] at h
+  cases hu : normF g σ u <;> simp [hu] at h
+  cases hm : mapO (normF g σ) args <;> simp [hm] at h
+  exact ⟨_, _, rfl, rfl, h.symm⟩
+
+theorem normF_array_some {g σ n e y} (h : normF (g+1) σ (.array n e) = some y) :
+    ∃ e', normF g σ e = some e' ∧ y = .array n e' := by
+  rw [normF_array] at h
+  cases he : normF g σ e <;> simp [he] at h
+  exact ⟨_, rfl, h.symm⟩
+
+theorem normF_vec_some {g σ e y} (h : normF (g+1) σ (.vec e) = some y) :
+    ∃ e', normF g σ e = some e' ∧ y = .vec e' := by
+  rw [normF_vec] at h
+  cases he : normF g σ e <;> simp [he] at h
+  exact ⟨_, rfl, h.symm⟩
+
+theorem normF_ref_some {g σ e y} (h : normF (g+1) σ (.ref e) = some y) :
+    ∃ e', normF g σ e = some e' ∧ y = .ref e' := by
+  rw [normF_ref] at h
+  cases he : normF g σ e <;> simp [he] at h
+  exact ⟨_, rfl, h.symm⟩
+
+theorem normF_func_some {g σ ps r y} (h : normF (g+1) σ (.func ps r) = some y) :
+    ∃ ps' r', mapO (normF g σ) ps = some ps' ∧ normF g σ r = some r' ∧ y = .func ps' r' := by
+  rw [normF_func] at h
+  cases hm : mapO (normF g σ) ps <;> simp [hm] at h
+  cases hr : normF g σ r <;> simp [hr] at h
+  exact ⟨_, _, rfl, rfl, h.symm⟩
+
+theorem agreeL_mapO {G H : Ty → Option Ty}
+    (IH : ∀ x y x' y', agree x y = true → G x = some x' → H y = some y' → agree x' y' = true) :
+    ∀ ts us ts' us', agreeL ts us = true → mapO G ts = some ts' → mapO H us = some us' → agreeL ts' us' = true
+  | [], [], ts', us', _, h1, h2 => by
+    cases mapO_nil_some.1 h1; cases mapO_nil_some.1 h2; simp [agreeL]
+  | [], _ :: _, _, _, h, _, _ => by simp [agreeL] at h
+  | _ :: _, [], _, _, h, _, _ => by simp [agreeL] at h
+  | t :: ts, u :: us, ts', us', h, h1, h2 => by
+    obtain ⟨x, xs, hx, hxs, rfl⟩ := mapO_cons_some.1 h1
+    obtain ⟨y, ys, hy, hys, rfl⟩ := mapO_cons_some.1 h2
+    simp only [agreeL, Bool.and_eq_true] at h ⊢
+    exact ⟨IH _ _ _ _ h.1 hx hy, agreeL_mapO IH ts us xs ys h.2 hxs hys⟩
+
+theorem agree_leaf {x y} (hl : isLeaf x = true) (h : agree x y = true) : isLeaf y = true := by
+  cases x <;> cases y <;> simp_all [isLeaf, agree]
+
+/-- normalising two agreeing types (in any store) gives agreeing types -/
+theorem agree_norm {σ} : ∀ f g x y x' y', agree x y = true → normF f σ x = some x' → normF g σ y = some y' →
+    agree x' y' = true
+  | 0, _, _, _, _, _, _, h, _ => by simp at h
+  | _, 0, _, _, _, _, _, _, h => by simp at h
+  | f+1, g+1, x, y, x', y', ha, hx, hy => by
+    have IH := fun x y x' y' => agree_norm (σ := σ) f g x y x' y'
+    have IHL := agreeL_mapO IH
+    rcases normF_succ_cases hx with ⟨v, u, rfl, hv, hu⟩ | ⟨v, rfl, hv, rfl⟩ | ⟨ts, ts', rfl, hm, rfl⟩ |
+      ⟨u, args, u', args', rfl, hu, hm, rfl⟩ | ⟨n, e, e', rfl, he, rfl⟩ | ⟨e, e', rfl, he, rfl⟩ |
+      ⟨e, e', rfl, he, rfl⟩ | ⟨ps, r, ps', r', rfl, hm, hr, rfl⟩ | ⟨hl, rfl⟩
+    · cases y <;> simp [agree] at ha
+      subst ha
+      cases normF_functional hx hy; exact agree_refl _
+    · cases y <;> simp [agree] at ha
+      subst ha
+      cases normF_functional hx hy; exact agree_refl _
+    · cases y <;> simp [agree] at ha
+      obtain ⟨us', h2, rfl⟩ := normF_tuple_some hy
+      simp only [agree]; exact IHL _ _ _ _ ha hm h2
+    · cases y <;> simp [agree] at ha
+      obtain ⟨w', brgs', h1, h2, rfl⟩ := normF_app_some hy
+      simp only [agree, Bool.and_eq_true]; exact ⟨IH _ _ _ _ ha.1 hu h1, IHL _ _ _ _ ha.2 hm h2⟩
+    · cases y <;> simp [agree] at ha
+      obtain ⟨w', h1, rfl⟩ := normF_array_some hy
+      simp only [agree, Bool.and_eq_true]; exact ⟨by simpa using ha.1, IH _ _ _ _ ha.2 he h1⟩
+    · cases y <;> simp [agree] at ha
+      obtain ⟨w', h1, rfl⟩ := normF_vec_some hy
+      simp only [agree]; exact IH _ _ _ _ ha he h1
+    · cases y <;> simp [agree] at ha
+      obtain ⟨w', h1, rfl⟩ := normF_ref_some hy
+      simp only [agree]; exact IH _ _ _ _ ha he h1
+    · cases y <;> simp [agree] at ha
+      obtain ⟨qs', w', h1, h2, rfl⟩ := normF_func_some hy
+      simp only [agree, Bool.and_eq_true]; exact ⟨IHL _ _ _ _ ha.1 hm h1, IH _ _ _ _ ha.2 hr h2⟩
+    · have hl' := agree_leaf hl ha
+      rw [normF_leaf hl'] at hy; cases hy; exact ha
+
 end Goml.Unify
